@@ -23,19 +23,26 @@ type joinIterCtx struct {
 	recv                    types.Type
 }
 
+// loads/stores of a field in fn and in the private helpers a query on fn enters (e.g. a setCurrent helper)
 func loadsOfField(fn *ssa.Function, f *types.Var) []ssa.Value {
-	return an.FindValues(fn, func(v ssa.Value) bool {
-		u, ok := v.(*ssa.UnOp)
-		return ok && u.Op == token.MUL && an.FieldOf(u.X) == f
-	})
+	var out []ssa.Value
+	for _, g := range an.InlineReach(fn) {
+		out = append(out, an.FindValues(g, func(v ssa.Value) bool {
+			u, ok := v.(*ssa.UnOp)
+			return ok && u.Op == token.MUL && an.FieldOf(u.X) == f
+		})...)
+	}
+	return out
 }
 
 func storesToField(fn *ssa.Function, f *types.Var) []ssa.Instruction {
 	var out []ssa.Instruction
-	for _, b := range fn.Blocks {
-		for _, in := range b.Instrs {
-			if st, ok := in.(*ssa.Store); ok && an.FieldOf(st.Addr) == f {
-				out = append(out, st)
+	for _, g := range an.InlineReach(fn) {
+		for _, b := range g.Blocks {
+			for _, in := range b.Instrs {
+				if st, ok := in.(*ssa.Store); ok && an.FieldOf(st.Addr) == f {
+					out = append(out, st)
+				}
 			}
 		}
 	}
@@ -78,14 +85,22 @@ func (j *joinIterCtx) advance(fn *ssa.Function, side *types.Var, origin int64, d
 	}
 	as := j.entryAssumptions(fn, origin)
 	var via, mayset []ssa.Instruction
-	for _, k := range an.Calls(fn) {
+	entered := map[*ssa.Function]bool{}
+	var calls []ssa.CallInstruction
+	for _, g := range an.InlineReach(fn) {
+		entered[g] = true
+		calls = append(calls, an.Calls(g)...)
+	}
+	for _, k := range calls {
 		cc := k.Common()
 		if cc.IsInvoke() && cc.Method.Name() == "Next" && fieldOfLoad(cc.Value) == side {
 			via = append(via, k)
 			mayset = append(mayset, k)
 			continue
 		}
-		if callee := cc.StaticCallee(); callee != nil && callee != fn && callee.Signature.Recv() != nil && types.Identical(callee.Signature.Recv().Type(), j.recv) {
+		// other methods of the iterator that the path engine does not enter (units with rules of their own) are
+		// summarised recursively; private helpers are entered by the queries below
+		if callee := cc.StaticCallee(); callee != nil && callee != fn && !entered[callee] && callee.Signature.Recv() != nil && types.Identical(callee.Signature.Recv().Type(), j.recv) {
 			hm, hmay := j.advance(callee, side, origin, depth+1)
 			if hm {
 				via = append(via, k)
